@@ -8,6 +8,10 @@ import X86Model.Driver.Consts
 import X86Model.Driver.Mapper
 import X86Model.Driver.Entry
 import X86Model.Driver.Gdt
+import X86Model.Driver.Port
+import X86Model.Driver.Interrupts
+import X86Model.Driver.Regs
+import X86Model.Driver.Tlb
 
 open X86 X86.Driver
 
@@ -15,7 +19,7 @@ open X86 X86.Driver
 structure DState where
   mapper : MState := {}
 
-def statelessHandlers : List Handler := [handleC03, handleC04, handleC05, handleC06, handleC07, handleC19, handleC08, handleC15, handleC14]
+def statelessHandlers : List Handler := [handleC03, handleC04, handleC05, handleC06, handleC07, handleC19, handleC08, handleC15, handleC14, handleC18, handleC17, handleC16, handleC11]
 
 def dispatch : SHandler DState := fun cfg op a impl st =>
   match statelessHandlers.firstM (fun h => h cfg op a impl) with
